@@ -29,11 +29,17 @@ META = {
                   "at a profile date must be the new one; in 'decimal' scenarios either value is accepted within precision/timing of a "
                   "date. Not judged (the statement is silent): what a latency change does to a message still paying the latency; an "
                   "activity that would end exactly when its resource is turned off (ok and failure both accepted). Hosts that are "
-                  "endpoints of messages have no state profile (Comm::sendto towards an off host is outside the API contract).",
+                  "endpoints of messages have no state profile (Comm::sendto towards an off host is outside the API contract). Every activity "
+                  "is judged on its own: the reference is re-run with the activities that already deviated leaving when SimGrid said they "
+                  "left, so one defect is reported once, under a key that names its class (open findings: known_findings.d/C22.json). "
+                  "Under cpu/optim:TI the harness only calls get_available_speed() on hosts with a speed profile of >= 2 points (it crashes "
+                  "otherwise: directed case) and never get_load(). The ASan cases have no state profile: the exception path under ASan on "
+                  "a user-level context stack reports inside __cxa_demangle / the sigaltstack interceptor (sanitizer artefact, counted "
+                  "inconclusive if it still happens). One harness process runs a chunk of cases, each in a forked child (one Engine each).",
     "rule": "case = one generated platform + profiles + scripts under one configuration; non-trivial = at least one value read exactly at a "
             "profile date or one activity whose life spans a profile point; distinct by scenario content",
     "assumptions": ["finish dates are compared within 5 x precision/timing + 1e-12 relative (lazy action heaps snap ends closer than 1e-9)"],
-    "ready": False,
+    "ready": True,
 }
 
 W = orc.PREC_TIMING
